@@ -7,6 +7,7 @@ func init() {
 	vHarnesses["VH_C18_modify"] = VH_C18_modify
 	vHarnesses["VH_C18_long"] = VH_C18_long
 	vHarnesses["VH_C18_modify_float"] = VH_C18_modify_float
+	vHarnesses["VH_C18_modify_expr"] = VH_C18_modify_expr
 }
 
 type vStCall struct {
@@ -99,6 +100,62 @@ func VH_C18_modify_float() {
 	fv, ok := c.val.ReadFloat()
 	vAssert(ok, "value-is-a-float")
 	vAssert(fv == am.val, "value-is-the-written-amount (sign-normalised)")
+}
+
+// amounts that are expressions over the variable xx (a 64-bit symbol): the
+// callback receives the amount's value whatever its sign
+var vC18ExprAmounts = []struct {
+	src string
+	val func(x int64) int64
+}{
+	{"xx", func(x int64) int64 { return x }},
+	{"(xx)", func(x int64) int64 { return x }},
+	{"(1-xx)", func(x int64) int64 { return 1 - x }},
+	{"(xx-3)", func(x int64) int64 { return x - 3 }},
+	{"(0-xx)", func(x int64) int64 { return 0 - x }},
+}
+
+//vh:prop=C18 tiers=quick,thorough sigkeys=form,amount,second overrides=formatFriendlyError budget_s=600 bounds="one or two attribute modifications in each of the 7 spellings whose amount is a variable or a parenthesised expression over a variable holding a 64-bit solver symbol (positive, zero or negative): one callback per edit, name and operator verbatim, value equal to the amount's value for every sign (sign-normalised for the '-' spelling)"
+func VH_C18_modify_expr() {
+	f := vC18ModifyForms[vChoice("form", len(vC18ModifyForms))]
+	am := vC18ExprAmounts[vChoice("amount", len(vC18ExprAmounts))]
+	x := vInt64("x")
+	vm := vNewVM()
+	vm.Attrs.Store("xx", NewIntVal(IntType(x)))
+	var calls []vStCall
+	vm.Config.CallbackSt = func(typ string, name string, val *VMValue, extra *VMValue, op string, detail string) {
+		calls = append(calls, vStCall{typ, name, op, detail, val, extra})
+	}
+	src := "^st" + f.pre + am.src
+	n := 1
+	if vChoice("second", 2) == 1 {
+		// a second edit in the '-' spelling after a separator
+		src += ", 敏捷-" + am.src
+		n = 2
+	}
+	err := vm.Run(src)
+	vReach("ran")
+	vAssert(err == nil, "edit-is-accepted")
+	if err != nil {
+		return
+	}
+	vAssert(vm.RestInput == "", "edits-consumed-entirely")
+	vAssert(len(calls) == n, "callback-fires-once-per-edit")
+	if len(calls) != n {
+		return
+	}
+	c := calls[0]
+	vAssert(c.typ == "mod" && c.name == f.name && c.op == f.op, "kind-name-operator-verbatim")
+	iv, ok := c.val.ReadInt()
+	vAssert(ok, "value-is-an-integer")
+	vAssert(int64(iv) == am.val(x), "value-is-the-amount's-value-for-every-sign")
+	if n == 2 {
+		c := calls[1]
+		vAssert(c.typ == "mod" && c.name == "敏捷" && c.op == "-", "kind-name-operator-verbatim")
+		iv, ok := c.val.ReadInt()
+		vAssert(ok, "value-is-an-integer")
+		vAssert(int64(iv) == am.val(x), "value-is-the-amount's-value-for-every-sign")
+	}
 }
 
 func vC18Run(forms []vStForm, maxEdits int) { vC18RunN(forms, 1, maxEdits, false) }
